@@ -439,6 +439,30 @@ func runC20(c *Ctx) {
 				if v, isK := constInt(arg); isK && v > 0 {
 					okPos = true
 				}
+				if pr, isP := arg.(*ssa.Parameter); isP && !okPos {
+					// the interval is handed in: every caller of the package (call, go or defer) hands over a positive constant
+					pi := -1
+					for i, fp := range fn.Params {
+						if fp == pr {
+							pi = i
+						}
+					}
+					sites, good := 0, 0
+					for _, g := range c.srcFuncs(cachePkg) {
+						eachCall(g, func(cs ssa.CallInstruction) {
+							if staticFn(cs) != fn || pi < 0 || pi >= len(cs.Common().Args) {
+								return
+							}
+							sites++
+							if v, isK := constInt(cs.Common().Args[pi]); isK && v > 0 {
+								good++
+							}
+						})
+					}
+					if sites > 0 && sites == good {
+						okPos = true
+					}
+				}
 				if !okPos {
 					q := &pathQuery{fn: fn, target: func(x ssa.Instruction) bool { return x == ins }, cutEdge: func(b *ssa.BasicBlock, si int) bool {
 						iff := ifOf(b)
